@@ -23,8 +23,12 @@ Reset ==
   /\ modelLog' = <<>> /\ phase' = "idle" /\ registry' = <<>>
 
 OrderOK(s, out) ==
-  LET N(x) == (CHOOSE y \in out : y.o = x.o /\ y.kind = x.kind).n IN
-  \A i, j \in DOMAIN s : (i < j /\ s[i].o[1] = s[j].o[1] /\ s[i].o[2] = s[j].o[2]) => N(s[i]) < N(s[j])
+  LET N(x) == (CHOOSE y \in out : y.o = x.o /\ y.kind = x.kind).n
+      \* (an effect of a capability-API future goes straight to the core's channel, one of the command
+      \* API is forwarded through its command: order is kept on each path, not between them)
+      SamePath(x, y) == x.kind # "eff" \/ reqs[x.o].legacy = reqs[y.o].legacy IN
+  \A i, j \in DOMAIN s : (i < j /\ s[i].o[1] = s[j].o[1] /\ s[i].o[2] = s[j].o[2] /\ SamePath(s[i], s[j]))
+                            => N(s[i]) < N(s[j])
 
 Obs(e) == [kind |-> e.kind, o |-> e.o, tag |-> e.tag, val |-> e.val]
 
